@@ -36,6 +36,19 @@ for mp in sorted(glob.glob(os.path.join(V, "seeded", "*", "meta.json"))):
     rows.append("| %s | %s | %s; needs: %s | %s | %s | %s |" % (
         os.path.basename(os.path.dirname(mp)), m.get("property"), esc(m.get("title", ""))[:160], esc(m.get("needs", ""))[:200],
         "yes" if c.get("detected") else "NO", "yes" if c.get("concrete_replay") else "no", esc(first)[:160]))
+import subprocess
+log = subprocess.run(["git", "-C", os.environ.get("VERIF_REPO", "/repo"), "log", "--reverse", "--format=%h\t%s", "--grep=^fix:"],
+                     capture_output=True, text=True).stdout.splitlines()
+byc = {}
+for f in fixed:
+    for c in re.split(r"[+, ]+", f.get("commit", "")):
+        if c:
+            byc.setdefault(c[:7], []).append(f["id"])
+rr = ["| commit | subject | findings closed (see 10.4) |", "|---|---|---|"]
+for ln in log:
+    h, subj = ln.split("\t", 1)
+    rr.append("| %s | %s | %s |" % (h, esc(subj), ", ".join(sorted(set(byc.get(h[:7], []))))))
+s = block("REPAIRS", "\n".join(rr), s)
 s = block("SEEDED", "\n".join(rows), s)
 rows = ["| check | obligations (discharged) | evaluations (distinct non-trivial) | known findings hit | quick wall s |", "|---|---|---|---|---|"]
 for ep in sorted(glob.glob(os.path.join(V, "evidence", "C*.json"))):
